@@ -8,6 +8,11 @@ Decided structural clauses:
  D3 run state lives on the instance: everything continue_adaptive_refinement reads was stored by the initial call, and the
     continuation does not re-initialise the run state
  D4 per-step markers are reset in every per-dimension container (delegation of the meta container covers all containers)
+ D5 the continuation honours the limits of THIS call: the stop tests read only parameters / locals of the call, never limits
+    remembered on the instance from the initial call
+ D6 no class of the package customises pickling (a __getstate__/__reduce__/__setstate__/__deepcopy__ hook would make the
+    restored instance differ from the saved one)
+ D7 the per-area accumulator is re-assigned unconditionally before an area is (re-)evaluated
 Not decided: equality of final structures / results as values; picklability of user functions."""
 import ast
 
@@ -83,6 +88,9 @@ def run(prog, ctx):
                           "stopping and continuing runs evaluate_operation twice in a row (exit path without refine: lines %s); %s "
                           "evaluates incrementally (%s), so the areas created by the last refinement are added to the accumulators a "
                           "second time" % ([n.lineno for n in (path or []) if n.lineno][:8], st.name, why))
+
+    # ------------------------------------------------------------------ D5 / D6 / D7
+    check_limits_and_pickling(prog, ctx, car)
 
     # ------------------------------------------------------------------ D2
     sv = prog.func("StandardCombi.StandardCombi.save_to_file")
@@ -229,3 +237,49 @@ def run(prog, ctx):
              tmc.term(s.value) == ("call", ("n", "len"), (("a", ("n", "self"), "refinementObjects"),), ()) for s in R.self_stores(cn))
     ctx.check(ok, "C14.D4", R.key_of(cn, "marks-none-new"), cn.loc(), "clear_new_objects sets the marker to the current size",
               "clear_new_objects no longer sets startNewObjects to len(self.refinementObjects)")
+
+
+def check_limits_and_pickling(prog, ctx, car):
+    c = cfg_of(car)
+    tm = Terms(car.node, max_depth=0)
+    loops = [l for l in walk_local(car.node) if isinstance(l, ast.While)]
+    loop = loops[0]
+    breaks = [n for n in c.nodes if n.kind == "stmt" and isinstance(n.ast, ast.Break) and c.in_loop(n, loop) and n.idx in c.reachable()]
+    bad = []
+    for b in breaks:
+        for (g, gn) in R.dominating_guards(car, b, tm):
+            if gn.kind != "test" or not c.in_loop(gn, loop) or gn.ast is loop.test:
+                continue
+            for x in subterms(g):
+                if x[0] == "a" and x[1] == ("n", car.self_name) and x[2] not in ("single_step",):
+                    bad.append((x[2], gn))
+    ctx.check(not bad, "C14.D5", R.key_of(car, "limits-of-this-call"), car.loc(bad[0][1].ast) if bad else car.loc(),
+              "the stop tests use the tolerance and limits passed to this call",
+              "a stop test of continue_adaptive_refinement reads self.%s (remembered from the initial call) instead of the limit passed to the "
+              "continuation: continuing with larger limits does not end where an uninterrupted run with those limits ends" % (bad[0][0] if bad else ""))
+    hooks = []
+    for q, fi in prog.functions.items():
+        if fi.cls is not None and fi.name in ("__getstate__", "__setstate__", "__reduce__", "__reduce_ex__", "__deepcopy__", "__copy__", "__getnewargs__"):
+            hooks.append(fi)
+    for fi in hooks:
+        ctx.violation("C14.D6", R.key_of(fi, "pickling-hook"), fi.loc(),
+                      "%s customises how instances are pickled/copied: an instance restored by restore_from_file no longer carries the "
+                      "state it was saved with" % fi.qual)
+    if not hooks:
+        ctx.ok("C14.D6", "package::no-pickling-hooks", "sparseSpACE/*", "no class defines __getstate__/__setstate__/__reduce__/__deepcopy__: dill stores the whole __dict__")
+    ap = prog.func("GridOperation.Integration.area_preprocessing")
+    ctx.touch(ap)
+    ca = cfg_of(ap)
+    area = ap.params[1]
+    resets = []
+    for x in R.calls_in(ap.node, method="set_value"):
+        if isinstance(x.func.value, ast.Name) and x.func.value.id == area:
+            resets.append(R.cfg_node(ap, x))
+    for s in R.attribute_stores(ap.node):
+        if s.attr == "value" and isinstance(s.base, ast.Name) and s.base.id == area and s.kind == "plain":
+            resets.append(ca.node_of(s.stmt))
+    ok = bool(resets) and any(ca.post_dominates(n, ca.entry) for n in resets)
+    ctx.check(ok, "C14.D7", R.key_of(ap, "area-value-reset"), ap.loc(),
+              "an area's partial result is re-assigned on every path before the area is evaluated",
+              "Integration.area_preprocessing does not re-assign the area's value on every path: an area that is evaluated again "
+              "(after a stop and continue, or a recalculation) keeps its old contribution and adds the new one")
